@@ -351,7 +351,9 @@ pub fn c03_word(c: &Collector, w: &str, utf8: bool, l: &mut E1Local, engine: &st
                 return;
             }
             let (e, o) = (normalise(&exp), normalise(&ev));
-            l.outcomes.insert(ev_hash(&o));
+            if l.outcomes.len() < 1_000_000 {
+                l.outcomes.insert(ev_hash(&o));
+            }
             if e != o {
                 let i = e.iter().zip(o.iter()).position(|(a, b)| a != b).unwrap_or(e.len().min(o.len()));
                 c.violation(mk(
